@@ -360,7 +360,16 @@ class Sut:
                 # the `find ... | awk` of remotepath._size: answer with the configured usage of the quoted paths
                 import re
                 total = 0
-                leaves = [posixpath.basename(p) for p in re.findall(r'"([^"]+)"', " ".join(command))]
+                # the path list is quoted for the shell (double quotes before /repo f2bd120, shlex.quote since): parse it
+                # the way sh would, so that the harness follows either rendering
+                import shlex
+                text = " ".join(command)
+                m = re.search(r"find -L (.*?) -type f", text)
+                try:
+                    paths = shlex.split(m.group(1)) if m else re.findall(r'"([^"]+)"', text)
+                except ValueError:
+                    paths = re.findall(r'"([^"]+)"', text)
+                leaves = [posixpath.basename(p) for p in paths]
                 jid = leaves[0].split("_")[0] if leaves else None
                 if sut.gated and cfg.get("gate_usage") and jid in cfg["jobs"] and not sut.usage_passed.get(jid, True):
                     # the measurement of a releasing job is a completion the driver decides (UsageDone)
